@@ -263,6 +263,9 @@ def finding_key(obs, clause):
     only a shortfall within the inscribed-32-gon bound is the known finding F16."""
     if clause == "BoundsGrowRoundStrict" and obs["in"]["g"]["type"] in ("LineString", "MultiLineString"):
         return "BoundsGrowRound/deficit<=1-cos(pi/32)"
+    # a line string that folds back (Buffer!Folded, decided in TLA+) misses even the tolerant target at the tip of the fold
+    if clause == "BoundsGrowFolded" and obs["in"]["g"]["type"] in ("LineString", "MultiLineString"):
+        return "BoundsGrowRound/line-string-folding-back"
     # same split (Buffer!FlatCase, decided in TLA+): zero frequency buffer on a shape reaching above 2.25 MHz
     if clause == "BoundsGrowFlatStrict" and 0 in (obs["in"]["b1"][1], obs["in"]["b2"][1]):
         return "BoundsGrow/zero-freq-buffer-above-2.25MHz/deficit<=1-cos(pi/8)"
